@@ -52,7 +52,7 @@ def c_trailing_newline_sid(v):
     c = _case(v)
     s = c.get("s")
     return (isinstance(s, str) and s.endswith("\n") and not s.endswith("\n\n")
-            and v.get("kind", "") in ("typed_but_oracle_untyped", "typed_differently")
+            and v.get("kind", "").split(":")[-1] in ("typed_but_oracle_untyped", "typed_differently", "inconsistent_typed")
             and c.get("got_type") and c.get("got_type") == c.get("type_without_trailing_nl"))
 
 
